@@ -58,7 +58,7 @@ def is_final_tx(ctx, P):
     ctx.ob("IsFinalTx/exits", "TWIN", "IsFinalTx exits only by `return true` / `return false`", len(acc) + len(rej) == len(ex) and bool(acc) and bool(rej), f.where)
     check_loop_rung(ctx, f, P, "non-final-input", "!SEQFINAL", atoms, r"each\(tx\.vin\)", acc, rej, when="NL && !LT", subst=subst)
     for e in rej:
-        f_, mapping, un = bound(drop_done(e.formula), atoms)
+        f_, mapping, un = bound(nf(f, subst, e.formula), atoms)
         cex = F.counterexample(f_, F.parse("NL && !LT && !SEQFINAL"))
         ok = cex is None
         ctx.ob("IsFinalTx/reject-only-if@L%s" % e.line, "TWIN", "IsFinalTx returns false only if nLockTime != 0, the lock is not yet reached (strict <) and some input "
@@ -67,7 +67,7 @@ def is_final_tx(ctx, P):
     for e in acc:
         if e.loops:
             continue
-        f_, mapping, un = bound(drop_done(e.formula), atoms)
+        f_, mapping, un = bound(nf(f, subst, e.formula), atoms)
         ok = not un
         ctx.ob("IsFinalTx/accept-atoms@L%s" % e.line, "TWIN", "the accepting exit at line %s depends only on nLockTime == 0 and nLockTime < (nLockTime < LOCKTIME_THRESHOLD ? "
                "nBlockHeight : nBlockTime)" % e.line, ok, "%s:%s" % (f.file, e.line), None if ok else {"unbound_code_atoms": un})
@@ -215,7 +215,7 @@ def contextual(ctx, P):
     check_loop_rung(ctx, f, P, "bad-txns-nonfinal", "!FINAL", {"FINAL": fin}, r"each\(block\.vtx\)", acc, rej, subst=subst)
     check_results(ctx, f, P, {"bad-txns-nonfinal": "BlockValidationResult::BLOCK_CONSENSUS"}, closed=False, ex=ex)
     for e in rej:
-        f_, mapping, un = bound(drop_done(in_loop_formula(e.site, e.loops[0], subst)) if e.loops else F.T, {"FINAL": fin})
+        f_, mapping, un = bound(nf(f, subst, in_loop_formula(e.site, e.loops[0], subst)) if e.loops else F.T, {"FINAL": fin})
         ok = F.equivalent(f_, F.parse("!FINAL")) and not un
         ctx.ob("ContextualCheckBlock/nonfinal-only-if@L%s" % e.line, "LADDER", "bad-txns-nonfinal is raised for a transaction exactly when IsFinalTx is false for it", ok,
                "%s:%s" % (f.file, e.line), None if ok else {"unbound_code_atoms": un})
